@@ -244,6 +244,10 @@ impl Run {
                 self.step(sc.unstake(x, bal));
             }
         }
+        // every LST in existence is now queued for unstaking, but it still exists: rewards are processed
+        self.step(Op::NativeMint { addr: coll.clone(), amount: 321 });
+        self.step(sc.reward(&coll, &ch, 321));
+        self.relay_all("ack");
         let due = self.obs.pending.next_time_s;
         let now = self.sc.w.now_s();
         if due > now {
